@@ -178,9 +178,12 @@ namespace c16
         {
           auto info = Assembly::integrate_error_function<1>(da, f0, uh, space, cubname);
           auto einf = Assembly::ScalarErrorComputer<1>::compute(uh, f0, space, cub);
-          // both entry points compute the same two norms
+          // both entry points compute the same two norms.  Scale: the error is a difference f - u_h, its rounding noise scales with
+          // the parts (|f|^2 + |u|^2), not with the (possibly vanishing) difference
           {
-            const LD sc0 = std::max((LD)info.norm_h0_sqr, sqr((LD)einf.norm_h0)), sc1 = std::max((LD)info.norm_h1_sqr, sqr((LD)einf.norm_h1));
+            const LD p0 = integrate(qp, [&](const LD* x) { return sqr(ff.val<LD>(x)) + sqr(uu.val<LD>(x)); });
+            LD p1 = p0; for(int a = 0; a < dim; ++a) p1 += integrate(qp, [&](const LD* x) { return sqr(ff.der<LD>(x, a)) + sqr(uu.der<LD>(x, a)); });
+            const LD sc0 = std::max(p0, std::max((LD)info.norm_h0_sqr, sqr((LD)einf.norm_h0))), sc1 = std::max(p1, std::max((LD)info.norm_h1_sqr, sqr((LD)einf.norm_h1)));
             VF_CHECK(fabsl((LD)info.norm_h0_sqr - sqr((LD)einf.norm_h0)) <= 4 * tol_of<DT>(kap, sc0), "ScalarErrorComputer H0^2 " << (double)sqr((LD)einf.norm_h0) << " vs integrate_error_function " << (double)info.norm_h0_sqr);
             VF_CHECK(fabsl((LD)info.norm_h1_sqr - sqr((LD)einf.norm_h1)) <= 4 * tol_of<DT>(kap, sc1), "ScalarErrorComputer H1^2 " << (double)sqr((LD)einf.norm_h1) << " vs integrate_error_function " << (double)info.norm_h1_sqr);
           }
@@ -207,7 +210,12 @@ namespace c16
         auto info = Assembly::integrate_error_function<1>(da, fv, uh, space, cubname);
         auto einf = Assembly::VectorErrorComputer<1>::compute(uh, fv, space, cub);
         {
-          const LD sc0 = std::max((LD)info.norm_h0_sqr, sqr((LD)einf.norm_h0)), sc1 = std::max((LD)info.norm_h1_sqr, sqr((LD)einf.norm_h1));
+          const std::vector<QP> qp0 = mesh_qps(rm, 2 * std::max(q, polys_degree(Vp)));
+          LD p0 = 0, p1 = 0;
+          for(int i = 0; i < dim; ++i) { const Poly& u = Vp[(size_t)i]; const Poly& f = F[(size_t)i]; p0 += integrate(qp0, [&](const LD* x) { return sqr(f.val<LD>(x)) + sqr(u.val<LD>(x)); });
+            for(int a = 0; a < dim; ++a) p1 += integrate(qp0, [&](const LD* x) { return sqr(f.der<LD>(x, a)) + sqr(u.der<LD>(x, a)); }); }
+          p1 += p0;
+          const LD sc0 = std::max(p0, std::max((LD)info.norm_h0_sqr, sqr((LD)einf.norm_h0))), sc1 = std::max(p1, std::max((LD)info.norm_h1_sqr, sqr((LD)einf.norm_h1)));
           VF_CHECK(fabsl((LD)info.norm_h0_sqr - sqr((LD)einf.norm_h0)) <= 4 * tol_of<DT>(kap, sc0), "VectorErrorComputer H0^2 " << (double)sqr((LD)einf.norm_h0) << " vs integrate_error_function " << (double)info.norm_h0_sqr);
           VF_CHECK(fabsl((LD)info.norm_h1_sqr - sqr((LD)einf.norm_h1)) <= 4 * tol_of<DT>(kap, sc1), "VectorErrorComputer H1^2 " << (double)sqr((LD)einf.norm_h1) << " vs integrate_error_function " << (double)info.norm_h1_sqr);
         }
